@@ -5,6 +5,7 @@
    stack of their own`).  Schedules, worker counts and arrival orders are universally quantified. *)
 From P2 Require Import Base.Prelude Conc.ParMap Conc.SharedStack Conc.Pipeline Conc.ConcProofs.
 From P2 Require Import Conc.MapAutoProofs Conc.PipelineProofs Conc.MergeChan Conc.MergeChanProofs Conc.CopyProd Conc.CopyProdProofs.
+From P2 Require Import Conc.EarlyStopProofs Conc.CopyProdStop Conc.CopyProdStopProofs Conc.MergeLift.
 From Coq Require Import Permutation.
 
 (* the collector goroutine: results that are all values, arriving in ANY order (each index once), are handed to
@@ -167,14 +168,90 @@ Theorem multi_use_no_deadlock : forall (V : Type) (ncons : nat) (source : list (
   (forall more, call_enabled ncons m more = true -> length more <= cmeasure ncons m).
 Proof. exact @multi_use_no_deadlock_lem. Qed.
 
+(* MapAuto in front of a consumer that stops early (first, top(n), present, a reduce that fails ...; `stopf` decides from
+   what it has been given): for every k, decision, worker count and EVERY schedule - complete or not - every item the
+   consumer has been given is the sequential item of its position (or an error), it has not been given more than the
+   sequential map delivers, and the values it got before any error are a prefix of the sequential values.
+   What keeps running after the consumer has stopped is C12's business. *)
+Theorem map_auto_early_stop_prefix : forall (A B : Type) (f : nat -> A -> res B) (stopf : list (res B) -> bool)
+  (k : nat) (decide : bool) (nw : nat) (sched : list choice) (items : list (res A)),
+  let L := ma_cst (map_auto_run f (stop_yield stopf) k decide nw sched items []) in
+  let Lseq := fst (seq_map f log_yield 0 items []) in
+  Forall2 (@le_res B) (firstn (length L) Lseq) L /\ length L <= length Lseq /\ is_prefix (ok_prefix L) (ok_prefix Lseq).
+Proof. exact map_auto_early_stop_lem. Qed.
+
+Theorem filter_auto_early_stop_prefix : forall (V : Type) (accept : V -> res bool) (stopf : list (res V) -> bool)
+  (k : nat) (decide : bool) (nw : nat) (sched : list choice) (items : list (res V)),
+  let L := ma_cst (map_auto_run (filter_mapper accept) (filter_stop_yield stopf) k decide nw sched items []) in
+  is_prefix (ok_prefix L) (ok_prefix (seq_filter accept items)).
+Proof. exact filter_auto_early_stop_lem. Qed.
+
+(* the sequential merge in front of a consumer that stops early delivers a prefix of what a never-stopping consumer is
+   given; with merge_chan_prefix: whatever the interleaving and whenever the consumer stops, what it has been given is a
+   prefix of the full sequential merge *)
+Theorem merge_seq_stop_prefix : forall (V : Type) (less : V -> V -> res bool) (stopf : list (res V) -> bool) (la lb : list (res V)),
+  is_prefix (merge_seq less stopf la lb) (merge_seq less (fun _ => false) la lb).
+Proof. exact @merge_seq_stop_prefix_lem. Qed.
+
+Theorem merge_chan_stop_prefix : forall (V : Type) (less : V -> V -> res bool) (stopf : list (res V) -> bool)
+  (la lb : list (res V)) (sched : list mchoice),
+  is_prefix (clog (mc (mrun less stopf (minit la lb) sched))) (merge_seq less (fun _ => false) la lb).
+Proof.
+  exact (fun V less stopf la lb sched =>
+    prefix_trans _ _ _ _ (merge_chan_prefix_lem less stopf la lb sched) (merge_seq_stop_prefix_lem less stopf la lb)).
+Qed.
+
+(* the sequential merge machine (iterator.Merge's algorithm on lists) computes the textbook merge of the specification *)
+Theorem merge_seq_is_spec_merge : forall (lessO : Z -> Z -> option bool) (l o : list Z),
+  outcome (merge_seq (lessR lessO) (fun _ => false) (map (@ROk Z) l) (map (@ROk Z) o)) = merge_fuel (S (length l + length o)) lessO l o.
+Proof. exact merge_seq_is_merge_fuel. Qed.
+
+(* multiUse with consumers that may return early or fail (`beh j log`: what consumer j does after having received log):
+   every consumer has been given a prefix of the source at every moment of every schedule *)
+Theorem multi_use_stop_prefix : forall (V : Type) (ncons : nat) (beh : nat -> list (res V) -> cact)
+  (source : list (res V)) (sched : list qchoice) (j : nat) (c : qcons),
+  nth_error (qcs (qrun ncons beh (qinit ncons source) sched)) j = Some c -> is_prefix (qlog c) source.
+Proof. exact @multi_use_stop_prefix_lem. Qed.
+
+(* when everything has finished and nobody has failed, every consumer has seen - and ended as - what it does alone on
+   the whole source: the result map is the sequential one *)
+Theorem multi_use_sequential_views : forall (V : Type) (ncons : nat) (beh : nat -> list (res V) -> cact)
+  (source : list (res V)) (sched : list qchoice),
+  let m := qrun ncons beh (qinit ncons source) sched in
+  qcomplete m = true -> qresult_fails m = false ->
+  forall j c, nth_error (qcs m) j = Some c -> view beh j [] source = (qlog c, qtag c).
+Proof. exact @multi_use_sequential_views_lem. Qed.
+
+(* run reports an error exactly when some consumer fails on the source - even if that consumer was cut short because
+   another one failed first (errorTerm) *)
+Theorem multi_use_error_reported : forall (V : Type) (ncons : nat) (beh : nat -> list (res V) -> cact)
+  (source : list (res V)) (sched : list qchoice),
+  let m := qrun ncons beh (qinit ncons source) sched in
+  qcomplete m = true ->
+  (qresult_fails m = true <-> exists j, j < ncons /\ snd (view beh j [] source) = VFailed).
+Proof. exact @multi_use_error_reported_lem. Qed.
+
+(* ... and these are not vacuous: from every reachable state a completing schedule exists, an unfinished state has an
+   enabled step, schedules of enabled steps are bounded *)
+Theorem multi_use_stop_no_deadlock : forall (V : Type) (ncons : nat) (beh : nat -> list (res V) -> cact)
+  (source : list (res V)) (sched : list qchoice),
+  let m := qrun ncons beh (qinit ncons source) sched in
+  (exists sched', qcomplete (qrun ncons beh (qinit ncons source) (sched ++ sched')) = true) /\
+  (qcomplete m = false -> exists ch, qenabled m ch = true) /\
+  (forall more, qall_enabled ncons beh m more = true -> length more <= qmeasure ncons m).
+Proof. exact @multi_use_stop_no_deadlock_lem. Qed.
+
 (* Composition over the deep embedding of Conc/Pipeline.v: EVERY pipeline (stages with nested operand pipelines,
-   every terminal), EVERY assignment of (k, decision, worker count >= 1, schedule) to its map/accept stages - the
-   assignment may even differ between traversals of the same stage: the outcome is the sequential denotation.
-   _partial: the parallel stages of the embedding are map and accept.  merge and multiUse are denoted sequentially
-   on both sides; their protocols are the theorems above and are composed with the rest by the correspondence run. *)
-Theorem pipeline_par_eq_seq_partial : forall (asg : assignment), assignment_ok asg ->
+   every terminal), EVERY assignment of schedule inputs to the stages and terminals the library runs on more than one
+   goroutine - (k, decision, worker count >= 1, schedule) for map/accept and the escaping-list / nested-list maps
+   (MapAuto/FilterAuto), a schedule of the two producers and the consumer for merge and m.merge(m) (ToChan + stop flag),
+   a schedule of producer and consumers for the terminal multiUse (CopyProducer with failing consumers); the assignment
+   may differ between traversals of the same stage: the outcome is the sequential denotation.
+   All remaining stages and terminals run on the calling goroutine in the library as well, so nothing concurrent is
+   denoted sequentially on the parallel side any more. *)
+Theorem pipeline_par_eq_seq : forall (asg : assignment) (tsched : sp -> list Z -> list qchoice), assignment_ok asg ->
   forall (n : Z) (stages : list pstage) (t : tkind) (tp : sp),
-  pipe_par_with asg n stages t tp = pipe_seq n stages t tp.
+  pipe_par_with asg tsched n stages t tp = pipe_seq n stages t tp.
 Proof. exact pipeline_par_eq_seq_lem. Qed.
 
 (* non-vacuity: 3 workers, 5 items from index 12, item 14 fails; results arrive as 13,12,14,16,15; complete *)
@@ -228,6 +305,35 @@ Example multi_use_nonvacuous :
   ccomplete m = true /\ ccs m = [([ROk 1; RErr; ROk 3], false); ([ROk 1; RErr; ROk 3], false)].
 Proof. vm_compute. repeat split. Qed.
 
+
+(* one item on the caller, 3 workers, the results arrive as 3,2,1; the consumer stops after its third item *)
+Example early_stop_nonvacuous :
+  let f := fun (_ : nat) (x : nat) => ROk (x * 2) : res nat in
+  let m := map_auto_run f (stop_yield (fun l => Nat.leb 3 (length l))) 1 true 3
+             [Feed 0; Feed 1; Feed 2; Deliver 2; Deliver 1; Deliver 0; Feed 0; Feed 1; Deliver 1; Deliver 0; SeeDone]
+             [ROk 1; ROk 2; ROk 3; ROk 4; ROk 5; ROk 6] [] in
+  ma_cst m = [ROk 2; ROk 4; ROk 6]
+  /\ match m with MAPar s => map fst (trace s) = [3; 2; 1] /\ alive (col s) = false | _ => False end.
+Proof. vm_compute. repeat split. Qed.
+
+(* consumer 0 returns after two items, consumer 1 takes everything: complete, nobody fails, sequential views *)
+Example multi_use_stop_nonvacuous :
+  let beh := fun (j : nat) (log : list (res nat)) => match j with 0 => if Nat.leb 2 (length log) then AStop else AContinue | _ => AContinue end in
+  let m := qrun 2 beh (qinit 2 [ROk 1; ROk 2; ROk 3])
+    [QPull; QSend; QSend; QReady 1; QReady 0; QPull; QSend; QReady 0; QSend; QPull; QSkip; QReady 1; QSend; QPull; QReady 1; QEof 1] in
+  qcomplete m = true /\ qresult_fails m = false
+  /\ qcs m = [mkQ [ROk 1; ROk 2] QStopped; mkQ [ROk 1; ROk 2; ROk 3] QEnded].
+Proof. vm_compute. repeat split. Qed.
+
+(* consumer 0 fails on the error item; the producer sees errorTerm and breaks; consumer 1 ends with one item only -
+   and run reports the error *)
+Example multi_use_fail_nonvacuous :
+  let beh := fun (j : nat) (log : list (res nat)) => match j with 0 => match last log (ROk 0) with RErr => AFail | _ => AContinue end | _ => AContinue end in
+  let m := qrun 2 beh (qinit 2 [ROk 1; RErr; ROk 3]) [QPull; QSend; QSend; QReady 0; QReady 1; QPull; QSend; QReady 0; QBreak; QEof 1] in
+  qcomplete m = true /\ qresult_fails m = true
+  /\ qcs m = [mkQ [ROk 1; RErr] QFailed; mkQ [ROk 1] QEnded].
+Proof. vm_compute. repeat split. Qed.
+
 Print Assumptions collector_restores_order.
 Print Assumptions collector_reports_failure.
 Print Assumptions par_map_eq_seq.
@@ -248,4 +354,13 @@ Print Assumptions merge_chan_prefix.
 Print Assumptions merge_no_deadlock.
 Print Assumptions multi_use_each_sees_source.
 Print Assumptions multi_use_no_deadlock.
-Print Assumptions pipeline_par_eq_seq_partial.
+Print Assumptions pipeline_par_eq_seq.
+Print Assumptions map_auto_early_stop_prefix.
+Print Assumptions filter_auto_early_stop_prefix.
+Print Assumptions merge_seq_stop_prefix.
+Print Assumptions merge_chan_stop_prefix.
+Print Assumptions merge_seq_is_spec_merge.
+Print Assumptions multi_use_stop_prefix.
+Print Assumptions multi_use_sequential_views.
+Print Assumptions multi_use_error_reported.
+Print Assumptions multi_use_stop_no_deadlock.
